@@ -16,13 +16,16 @@ EXTENDS Hashtable
 
 CONSTANTS NK,      \* keys 1..NK
           HMax,    \* hash values 0..HMax (0 is stored as 1)
-          MaxOps   \* length of the operation history
+          MaxOps,  \* length of the operation history
+          Full     \* TRUE: H1 ranges over every assignment; FALSE: over two representatives
+                   \* (everything collides / all hashes distinct) while H2 still ranges over all
 
 Keys == 1..NK
 VARIABLES H1, H2, t1, o1, t2, o2, al, nops
 vars == <<H1, H2, t1, o1, t2, o2, al, nops>>
 
-Init == /\ H1 \in [Keys -> 0..HMax] /\ H2 \in [Keys -> 0..HMax]
+H1Set == IF Full THEN [Keys -> 0..HMax] ELSE {[k \in Keys |-> 1], [k \in Keys |-> k]}
+Init == /\ H1 \in H1Set /\ H2 \in [Keys -> 0..HMax]
         /\ t1 = EmptyTable(1) /\ o1 = <<>> /\ t2 = EmptyTable(1) /\ o2 = <<>>
         /\ al = <<>> /\ nops = 0
 
